@@ -17,9 +17,9 @@ LEVEL_TEXT = ("Concurrency testing of send() on the four unmodified clients over
               "state and attempt count untouched; a failing write must lead to DISCONNECTED and a new attempt.")
 TECHNIQUE = "schedule-controlled concurrency testing (Hypothesis-generated flow-control patterns) with a contiguity oracle on the written byte stream"
 RULE = ("client x 1..4 concurrent sends {single-frame, multi-frame, missing field, out-of-range value, unknown PGN} x pauses {(write index, "
-        "steps)} x optional write failure at write k; oracle: written bytes == concatenation, for some order, of encoder packet sequences "
+        "steps)} x optional write failure at write k or gateway EOF during a paused write followed by a second wave of sends on the new link; oracle: written bytes == concatenation, for some order, of encoder packet sequences "
         "(consecutive sequence counters); unencodable => no bytes, same state, same attempt count; write failure => DISCONNECTED + new "
-        "attempt; non-trivial = >= 2 concurrent multi-frame sends with >= 1 pause, or an unencodable message, or a write failure; "
+        "attempt; on every link the packets of one message stay together and nothing is written to a link after a newer one was opened; non-trivial = >= 2 concurrent multi-frame sends with >= 1 pause, or an unencodable message, or a write failure; "
         "distinct = (client, messages, pauses, failure)")
 ASSUMPTIONS = [
     "network-map seeding is off so that only the test's sends reach the link",
